@@ -469,6 +469,9 @@ func (g gen) item(depth int, out *[]byte) {
 	case 9:
 		// deep nesting
 		n := rapid.IntRange(1, 3000).Draw(t, "deep")
+		if rapid.IntRange(0, 3).Draw(t, "deeper") == 0 {
+			n = rapid.SampledFrom([]int{9999, 10000, 10001, 12000, 30000, 60000}).Draw(t, "deepn")
+		}
 		c := rapid.SampledFrom([]byte{0x9f, 0xbf, 0x81, 0xc1, 0xd9}).Draw(t, "deepc")
 		for i := 0; i < n; i++ {
 			*out = append(*out, c)
